@@ -53,6 +53,18 @@ theorem same_as_plain_application (σ : Leaves) (st : Store) (fuel : Nat) (o : U
   have b := applyOp_sound σ st fuel o t {} plain hkt (fun p hp => by cases hp) hwf htr hnd hp
   exact ⟨by rw [a.sem_eq, b.sem_eq], fun x => (a.cols x).trans (b.cols x).symm⟩
 
+/-- **A valid operation is never rejected with a column error because of where back-tracking tried
+to put it.**  For an operation that is well-formed for the target, `apply` with ANY combination of
+options raises nothing but the documented `EngineError` (an expression the engine does not support,
+or `require_preferred_engine` that cannot be honoured) - `fuel` / `notImpl` are artefacts of the model
+(recursion budget; a `sql.Select` inside an iteration-engine tree). -/
+theorem valid_operation_never_column_error (σ : Leaves) (st : Store) (fuel : Nat) (o : UOp) (t : Rel)
+    (opts : Opts) (e : Err) (hkt : t.engine.kind = .iter) (hpk : ∀ p, opts.pref = some p → p.kind = .iter)
+    (hwf : t.WF) (htr : t.Truthful σ) (hop : o.wfOn t.columns = true)
+    (hnd : o.isProj = true → t.spineNoDedup)
+    (h : applyOp st (fuel+1) (.u o) t opts = .error e) : e = .engine ∨ e = .fuel ∨ e = .notImpl :=
+  applyOp_error σ st fuel o t opts e hkt hpk hwf htr hop hnd h
+
 /-- Tie to the source: the `commute` methods that `backtrack_unary` consults - including
 `PartialJoin.commute`, whose soundness is validated rather than proved - are the current source's
 (translators T-e / T-f). -/
